@@ -57,7 +57,15 @@ def sweep_case(tier, index):
     return ops, dur
 
 
+class ClockFault(Exception):
+    """The simulated clock source failed (not a RuntimeError: it must not be
+    mistaken for the watch rejecting a call)."""
+
+
 class SimClock:
+    fail_next = False
+    fired = False
+
     def __init__(self, pattern, steps):
         self.t = 1024.0
         self.steps = steps
@@ -76,6 +84,10 @@ class SimClock:
         self.t += s
 
     def read(self):
+        if self.fail_next:
+            self.fail_next = False
+            self.fired = True
+            raise ClockFault('simulated clock failure')
         v = self.t
         self.log.append(v)
         self._step()
@@ -188,6 +200,19 @@ class Model:
         raise ValueError(op)
 
 
+TRANSPORTS = ('copy', 'deepcopy', 'pickle0', 'pickle2', 'pickle5')
+
+
+def transport(watch, how):
+    import copy
+    import pickle
+    if how == 'copy':
+        return copy.copy(watch)
+    if how == 'deepcopy':
+        return copy.deepcopy(watch)
+    return pickle.loads(pickle.dumps(watch, int(how[6:])))
+
+
 CALLS = [0]
 
 
@@ -273,10 +298,12 @@ class C13(Check):
                    'and flags are asserted',
                    'negative maximum is not generated (not covered by the '
                    'statement)']
-    FAULT_KINDS = ('clock_stall', 'clock_forward_jump', 'clock_backward_step')
+    FAULT_KINDS = ('clock_stall', 'clock_forward_jump', 'clock_backward_step',
+                   'clock_read_fails')
     PROBES = ('clock_backwards_while_running', 'illegal_call',
               'split_after_resume', 'maximum_clamped', 'expired_true',
-              'leftover_zero')
+              'leftover_zero', 'watch_transported', 'transport_unsupported',
+              'clock_failure_not_propagated')
 
     def setup(self):
         core.import_sut()
@@ -309,6 +336,20 @@ class C13(Check):
         # bias: start early in most histories
         if rng.random() < 0.7:
             ops.insert(0, [rng.choice(('start', 'enter', 'restart')), None])
+        xrng = st('extras')
+        if xrng.random() < 0.08:
+            # the watch travels: the calls that follow are made on a copy
+            # (copy / deepcopy / a pickle round trip, as when it is handed
+            # to another worker)
+            for _ in range(xrng.randint(1, 2)):
+                ops.insert(xrng.randint(0, len(ops)),
+                           ['transport', xrng.choice(TRANSPORTS)])
+        if xrng.random() < 0.06:
+            # the clock source fails once, on the first reading some call
+            # asks for
+            k = xrng.randrange(len(ops))
+            if ops[k][0] != 'transport':
+                ops[k] = [ops[k][0], ops[k][1], 'clock_fails']
         crng = st('clock')
         pattern = crng.choice(PATTERNS)
         return {'duration': st('config').choice(DURATIONS),
@@ -339,12 +380,35 @@ class C13(Check):
             watch = tu.StopWatch(duration=case['duration'])
             model = Model(case['duration'])
             resumed = False
-            for i, (op, arg) in enumerate(case['ops']):
+            for i, item in enumerate(case['ops']):
+                op, arg = item[0], item[1]
+                if op == 'transport':
+                    try:
+                        watch = transport(watch, arg)
+                        bump(pr, 'watch_transported')
+                    except Exception:
+                        # this tree's watch does not travel that way
+                        bump(pr, 'transport_unsupported')
+                    continue
                 clock.between()
                 mark = len(clock.log)
                 st_before = model.state
                 snap_before = None
+                clock.fired = False
+                clock.fail_next = len(item) > 2 and item[2] == 'clock_fails'
                 got = call(watch, op, arg)
+                clock.fail_next = False
+                if clock.fired:
+                    bump(fa, 'clock_read_fails')
+                    log.add(op, arg, got, 'clock failed')
+                    if got != ('exc', 'ClockFault'):
+                        # swallowed or translated: nothing in the statement
+                        # says what the call should then answer
+                        bump(pr, 'clock_failure_not_propagated')
+                        break
+                    # the call did not take place: the calls that follow
+                    # find the watch as it was
+                    continue
                 reads = clock.log[mark:]
                 r = reads[-1] if reads else None
                 back = clock.went_back
@@ -459,7 +523,7 @@ class C13(Check):
         stats['sim']['calls'] = len(case['ops'])
         for t in trans:
             bump(pr, 'T:%s/%s' % t)
-        shape = [o for o, _a in case['ops'][:6]]
+        shape = [x[0] for x in case["ops"][:6]]
         stats['distinct'] = [core._h64(core.canon(
             [case['duration'], case['pattern'], shape, sorted(trans)]))]
         stats['faulty'] = case['pattern'] in ('backwards', 'mixed', 'zero')
@@ -490,8 +554,8 @@ class C13(Check):
             c = copy.deepcopy(case)
             c['steps'] = case['steps'][:len(case['steps']) // 2]
             yield c
-        for i, (op, arg) in enumerate(ops):
-            if arg not in (None, False):
+        for i, item in enumerate(ops):
+            if item[0] != 'transport' and item[1] not in (None, False):
                 c = copy.deepcopy(case)
                 c['ops'][i][1] = None
                 yield c
